@@ -219,6 +219,8 @@ class Map(Node):
         for k, fl, v in zip(self.keys, self.flags, self.values):
             if env[fl]:
                 d[k] = v.make(env)
+        if self.ctor is dict:
+            return d  # not dict(d): under tracing the dict() constructor may hand back a proxy whose .__class__ is not dict
         return self.ctor(d)
 
 
